@@ -54,7 +54,19 @@ pub fn install_crash_reporter() {
 }
 
 pub fn silence_panics() {
-    std::panic::set_hook(Box::new(|_| {}));
+    // panics raised by the crate under test (or scripted ones) are expected and silent; a panic in the
+    // harness's own code is a harness bug and is reported on stderr
+    std::panic::set_hook(Box::new(|info| {
+        if let Some(l) = info.location() {
+            let f = l.file();
+            if f.starts_with("src/") && !f.contains("buf/") && !f.starts_with("src/bytes") && !f.starts_with("src/lib.rs") {
+                let msg = info.payload().downcast_ref::<&str>().map(|s| s.to_string()).or_else(|| info.payload().downcast_ref::<String>().cloned()).unwrap_or_default();
+                if !msg.contains("(scripted)") && !msg.contains("chunk_mut() empty") {
+                    eprintln!("harness panic at {}:{}: {}", f, l.line(), msg);
+                }
+            }
+        }
+    }));
 }
 
 // ---------------------------------------------------------------------------------------------
